@@ -358,14 +358,64 @@ type vbFaultStore struct {
 	headerfs.BlockHeaderStore
 	armed       bool
 	sawRollback bool
+	crash       *vbCrashPlan
+}
+
+// vbCrashPlan kills the process (panic, recovered by the driver, the block
+// manager is then discarded) when store mutation number budget+1 of the
+// current message is about to start: a crash BETWEEN two store calls.
+type vbCrashPlan struct {
+	armed  bool
+	budget int
+	fired  bool
+}
+
+type vbCrashed struct{}
+
+func (c *vbCrashPlan) mutation() {
+	if c == nil || !c.armed {
+		return
+	}
+	if c.budget == 0 {
+		c.fired = true
+		c.armed = false
+		panic(vbCrashed{})
+	}
+	c.budget--
+}
+
+type vbFaultFStore struct {
+	headerfs.FilterHeaderStore
+	crash *vbCrashPlan
+}
+
+func (s *vbFaultFStore) WriteHeaders(hdrs ...headerfs.FilterHeader) error {
+	if len(hdrs) > 0 {
+		s.crash.mutation()
+	}
+	return s.FilterHeaderStore.WriteHeaders(hdrs...)
+}
+
+func (s *vbFaultFStore) RollbackLastBlock(newTip *chainhash.Hash) (*headerfs.BlockStamp, error) {
+	s.crash.mutation()
+	return s.FilterHeaderStore.RollbackLastBlock(newTip)
+}
+
+func (s *vbFaultStore) RollbackBlockHeaders(n uint32) (*headerfs.BlockStamp, error) {
+	s.crash.mutation()
+	return s.BlockHeaderStore.RollbackBlockHeaders(n)
 }
 
 func (s *vbFaultStore) RollbackLastBlock() (*headerfs.BlockStamp, error) {
+	s.crash.mutation()
 	s.sawRollback = true
 	return s.BlockHeaderStore.RollbackLastBlock()
 }
 
 func (s *vbFaultStore) WriteHeaders(hdrs ...headerfs.BlockHeader) error {
+	if len(hdrs) > 0 {
+		s.crash.mutation()
+	}
 	if s.sawRollback {
 		s.sawRollback = false
 		return s.BlockHeaderStore.WriteHeaders(hdrs...)
@@ -394,6 +444,8 @@ type vbEnv struct {
 	db    walletdb.DB
 	bs    headerfs.BlockHeaderStore
 	fst   *vbFaultStore
+	ffst  *vbFaultFStore
+	crash *vbCrashPlan
 	fs    headerfs.FilterHeaderStore
 	bm    *blockManager
 	cands *list.List
@@ -462,11 +514,13 @@ func (e *vbEnv) reopenStores() error {
 }
 
 func (e *vbEnv) startManager() error {
-	e.fst = &vbFaultStore{BlockHeaderStore: e.bs}
+	e.crash = &vbCrashPlan{}
+	e.fst = &vbFaultStore{BlockHeaderStore: e.bs, crash: e.crash}
+	e.ffst = &vbFaultFStore{FilterHeaderStore: e.fs, crash: e.crash}
 	bm, err := newBlockManager(&blockManagerCfg{
 		ChainParams:      e.c.params,
 		BlockHeaders:     e.fst,
-		RegFilterHeaders: e.fs,
+		RegFilterHeaders: e.ffst,
 		QueryDispatcher:  nil,
 		TimeSource:       blockchain.NewMedianTime(),
 		BanPeer:          func(string, banman.Reason) error { return nil },
@@ -699,6 +753,10 @@ func (e *vbEnv) exec(a vbAct) (out vbAct) {
 	out.Res = "ok"
 	defer func() {
 		if r := recover(); r != nil {
+			if _, ok := r.(vbCrashed); ok {
+				out.Res = "crash"
+				return
+			}
 			out.Res = "panic"
 		}
 	}()
@@ -730,8 +788,11 @@ func (e *vbEnv) exec(a vbAct) (out vbAct) {
 		}
 		e.fst.armed = a.K == 1
 		e.fst.sawRollback = false
+		if a.K >= 10 {
+			e.crash.armed, e.crash.budget, e.crash.fired = true, a.K-10, false
+		}
+		defer func() { e.crash.armed = false; e.fst.armed = false }()
 		e.bm.handleHeadersMsg(&headersMsg{headers: m, peer: e.peers[a.P-1]})
-		e.fst.armed = false
 	case "WriteCF":
 		ft, fth, err := e.fs.ChainTip()
 		if err != nil {
@@ -756,7 +817,18 @@ func (e *vbEnv) exec(a vbAct) (out vbAct) {
 			stop = hd.BlockHash()
 		}
 		msg.StopHash = stop
-		if _, _, err := e.bm.writeCFHeadersMsg(msg, e.fs); err != nil {
+		if _, _, err := e.bm.writeCFHeadersMsg(msg, e.ffst); err != nil {
+			out.Res = "err"
+		}
+	case "Recover":
+		// restart after a crash: the dead manager is dropped, stores are
+		// opened anew on the files as they are
+		e.stopManager()
+		if err := e.reopenStores(); err != nil {
+			out.Res = "err"
+			return
+		}
+		if err := e.startManager(); err != nil {
 			out.Res = "err"
 		}
 	case "Restart":
@@ -955,9 +1027,19 @@ func (w *vbWorker) runPath(p vbPathIn) (out vbPathOut) {
 			out.Steps = append(out.Steps, vbStepOut{Act: a, Obs: out.lastObs(), Note: "manager could not be restarted"})
 			break
 		}
-		// let the notification receiver drain (the channel is unbuffered,
-		// so every send has been received when the handler returned)
-		out.Steps = append(out.Steps, vbStepOut{Act: a, Obs: e.observe()})
+		o := e.observe()
+		if a.Res == "crash" {
+			// only the stores survive a crash
+			o.Ev = [][]int{}
+			for k := range o.Bl {
+				o.Bl[k] = []int{vbERR}
+			}
+			o.Sync, o.Cur = 0, 0
+			for k := range o.Disc {
+				o.Disc[k] = 0
+			}
+		}
+		out.Steps = append(out.Steps, vbStepOut{Act: a, Obs: o})
 	}
 	return
 }
